@@ -180,7 +180,7 @@ func (p *storeProp) Gen(r *Rand, tier string, idx int) any {
 		addOp(op)
 	}
 	if sp.Kind == "oci" && sp.Tasks == 1 && (p.id == "C08" || p.id == "C07") {
-		for _, how := range []string{"fs", "tar", "new"} {
+		for _, how := range []string{"fs", "tar", "external", "new"} {
 			sp.Ops = append(sp.Ops, SOp{Op: "reopen", How: how})
 		}
 	}
@@ -753,9 +753,115 @@ func checkLayout(dir string) string {
 	return ""
 }
 
+// reopenExternal opens a copy of the layout whose index.json lists only the
+// tagged entries (as a layout written by another tool does) and checks that
+// Predecessors is exact for everything reachable from those entries.
+func (sr *storeRun) reopenExternal() *Verdict {
+	g := sr.g
+	var v *Verdict
+	simrt.Observe(func() {
+		ext := filepath.Join(sr.rc.DiskDir, "external")
+		os.RemoveAll(ext)
+		if err := copyTree(sr.dir, ext); err != nil {
+			return
+		}
+		b, err := os.ReadFile(filepath.Join(ext, "index.json"))
+		if err != nil {
+			return
+		}
+		var idx ocispec.Index
+		if json.Unmarshal(b, &idx) != nil {
+			return
+		}
+		var kept []ocispec.Descriptor
+		reach := map[int]bool{}
+		stored := func(i int) bool {
+			d := g.Nodes[i].Desc.Digest
+			_, err := os.Stat(filepath.Join(ext, "blobs", d.Algorithm().String(), d.Encoded()))
+			return err == nil
+		}
+		var walk func(i int)
+		walk = func(i int) {
+			i = g.Canon(i)
+			if reach[i] || !stored(i) {
+				return
+			}
+			reach[i] = true
+			for _, c := range g.Nodes[i].Succ {
+				walk(c)
+			}
+		}
+		for _, m := range idx.Manifests {
+			if m.Annotations[ocispec.AnnotationRefName] == "" {
+				continue
+			}
+			kept = append(kept, m)
+			if i := g.LookupDigest(m.Digest); i >= 0 {
+				walk(i)
+			}
+		}
+		idx.Manifests = kept
+		if idx.Manifests == nil {
+			idx.Manifests = []ocispec.Descriptor{}
+		}
+		nb, _ := json.Marshal(idx)
+		os.WriteFile(filepath.Join(ext, "index.json"), nb, 0o644)
+		re, err := oci.NewFromFS(context.Background(), os.DirFS(ext))
+		if err != nil {
+			v = violation("reopen-failed", "", "opening a layout whose index lists only tagged entries failed: %v", err)
+			return
+		}
+		nested := false
+		for _, n := range g.Nodes {
+			if g.Canon(n.ID) != n.ID {
+				continue
+			}
+			var want []string
+			for _, pp := range g.Preds(n.ID, reach, false) {
+				want = append(want, descKey(g.Nodes[pp].Desc))
+				if len(g.Preds(pp, reach, false)) > 0 {
+					nested = true
+				}
+			}
+			sort.Strings(want)
+			got := execOp(context.Background(), re, g, SOp{Op: "preds", Node: n.ID})
+			if strings.Join(want, ",") != strings.Join(got.List, ",") {
+				v = violation("predecessors-wrong", "", "layout reopened with only its tagged index entries: Predecessors(n%d)=%v, stored manifests reachable from the index that link to it=%v\nhistory: %v", n.ID, shortKeys(g, got.List), shortKeys(g, want), opsString(sr.sp.Ops))
+				return
+			}
+		}
+		if nested {
+			sr.info.Probes["external_layout_nested_manifest"]++
+			sr.info.Nontrivial = true
+		}
+	})
+	return v
+}
+
+func copyTree(src, dst string) error {
+	return filepath.Walk(src, func(p string, fi os.FileInfo, err error) error {
+		if err != nil {
+			return err
+		}
+		rel, _ := filepath.Rel(src, p)
+		t := filepath.Join(dst, rel)
+		if fi.IsDir() {
+			return os.MkdirAll(t, 0o755)
+		}
+		b, err := os.ReadFile(p)
+		if err != nil {
+			return err
+		}
+		return os.WriteFile(t, b, 0o644)
+	})
+}
+
 func (sr *storeRun) reopen(how string) *Verdict {
 	if sr.sp.Kind != "oci" {
 		return nil
+	}
+	if how == "external" {
+		return sr.reopenExternal()
 	}
 	g := sr.g
 	var v *Verdict
@@ -951,7 +1057,16 @@ func (sr *storeRun) porcupineModel(final *Snapshot) porcupine.Model {
 				// required to return matching bytes (checked at the call).
 				return true, m
 			}
-			return sresEqual(exp, got), m
+			// State-changing operations: the statement promises a sequentially
+			// explainable state, and that a refused operation changes nothing. So an
+			// operation that reported failure must also fail (and change nothing) at its
+			// place in the order; two overlapping operations that both report success
+			// where a sequential run would refuse the second (two Untags of one tag, two
+			// Pushes of one blob) are not judged.
+			if got.Err != "" && exp.Err == "" {
+				return false, m
+			}
+			return true, m
 		},
 		Equal: func(a, b interface{}) bool { return a.(*SModel).Key() == b.(*SModel).Key() },
 		DescribeOperation: func(input, output interface{}) string {
